@@ -1,6 +1,401 @@
-"""Engine V placeholder (filled in later)."""
-from common import Undecided
+"""Engine V: Verus on functions extracted mechanically from /repo on every run (DESIGN 2.2).
+
+A unit is a directory contracts/verus/<unit>/ with
+  unit.json      props, tier, obligations [{id, function, kind, clause, fns}], twin obligations
+  unit.rs.tpl    a Verus file in which `//@@ EXTRACT ... //@@ END` blocks are replaced by items copied
+                 from /repo's working tree.  Inside a block:
+      //@@ EXTRACT file=<repo path> anchor=<<<first line of the item, exact after strip>>> [nth=k]
+      //@@ SIGSUB <<<old>>> ==> <<<new>>>      rewrite applied to the REAL signature before the comparison below
+      //@@ SIG                                  the Verus signature: head + requires/ensures (until ENDSIG).  The head, with
+      ...                                       `-> (name: T)` read as `-> T`, must equal the real signature (visibility and
+      //@@ ENDSIG                               #[attributes] dropped) - otherwise the run is undecided (exit 2)
+      //@@ SUB <count> <<<old>>> ==> <<<new>>>  literal rewrite of the body; must match exactly <count> times (rules R3-R8)
+      //@@ AFTER <nth> <<<line>>>               the lines up to ENDAFTER are inserted after the nth body line equal to <line>
+      ...                                       (loop invariants, decreases, proof blocks: ghost text only)
+      //@@ ENDAFTER
+      //@@ END
+Everything else in the extracted item is passed to Verus untouched.
+"""
+import os
+import re
+import subprocess
+import time
+
+from common import CACHE, REPO, Undecided, log, read_json, sha256_bytes, write_json
+
+VERUS_VERSION = "verus-0.2026.09.13"
+_ARG = re.compile(r"<<<(.*?)>>>")
+_SPEC_KW = ("requires", "ensures", "decreases", "recommends", "opens_invariants", "no_unwind", "returns")
+
+BOUNDARY = ("postcondition not satisfied", "precondition not satisfied", "possible arithmetic underflow/overflow",
+            "possible arithmetic overflow", "possible arithmetic underflow", "possible division by zero", "index out of bounds",
+            "possible bit shift underflow/overflow", "recommendation not met", "unreachable", "possible truncation")
+INTERNAL = ("invariant not satisfied", "assertion failed", "decreases not satisfied", "could not prove termination",
+            "loop invariant", "assert_by", "assertion might fail")
 
 
-def run_unit(unit, snap, use_cache=True):
-    raise Undecided("verus engine not built yet")
+def _norm(s):
+    return re.sub(r"\s+", "", s)
+
+
+def _match_brace(lines, start):
+    """Index of the line holding the brace that closes the first `{` at or after lines[start]."""
+    depth = 0
+    seen = False
+    i = start
+    in_block_comment = False
+    while i < len(lines):
+        line = lines[i]
+        j = 0
+        in_str = False
+        while j < len(line):
+            ch = line[j]
+            nxt = line[j + 1] if j + 1 < len(line) else ""
+            if in_block_comment:
+                if ch == "*" and nxt == "/":
+                    in_block_comment = False
+                    j += 1
+            elif in_str:
+                if ch == "\\":
+                    j += 1
+                elif ch == '"':
+                    in_str = False
+            elif ch == "/" and nxt == "/":
+                break
+            elif ch == "/" and nxt == "*":
+                in_block_comment = True
+                j += 1
+            elif ch == '"':
+                in_str = True
+            elif ch == "'":
+                # char literal or lifetime: skip 'x' / '\x' forms
+                m = re.match(r"'(\\.[^']*|[^'\\])'", line[j:])
+                if m:
+                    j += len(m.group(0)) - 1
+            elif ch == "{":
+                depth += 1
+                seen = True
+            elif ch == "}":
+                depth -= 1
+                if seen and depth == 0:
+                    return i
+            j += 1
+        i += 1
+    raise Undecided("extraction: unbalanced braces")
+
+
+def _extract_block(block, unit_name, rewrites):
+    head = block[0]
+    m = re.search(r"file=(\S+)", head)
+    a = _ARG.search(head)
+    if not m or not a:
+        raise Undecided("%s: malformed EXTRACT line: %s" % (unit_name, head))
+    relfile, anchor = m.group(1), a.group(1).strip()
+    nthm = re.search(r"nth=(\d+)", head)
+    nth = int(nthm.group(1)) if nthm else None
+    path = os.path.join(REPO, relfile)
+    if not os.path.exists(path):
+        raise Undecided("lost anchor: %s is gone" % relfile)
+    with open(path) as f:
+        src = f.read().split("\n")
+    idx = [i for i, l in enumerate(src) if l.strip() == anchor]
+    if nth is None:
+        if len(idx) != 1:
+            raise Undecided("lost anchor: %r matches %d times in %s" % (anchor, len(idx), relfile))
+        start = idx[0]
+    else:
+        if len(idx) < nth:
+            raise Undecided("lost anchor: %r occurrence %d not in %s" % (anchor, nth, relfile))
+        start = idx[nth - 1]
+    end = _match_brace(src, start)
+    item = src[start:end + 1]
+    # split signature / body at the line that opens the body
+    k = 0
+    while k < len(item) and not item[k].rstrip().endswith("{"):
+        k += 1
+    if k == len(item):
+        raise Undecided("extraction: no body for %r" % anchor)
+    real_sig = " ".join(l.strip() for l in item[:k + 1])
+    real_sig = real_sig.rstrip()[:-1]  # drop "{"
+    body = item[k + 1:-1]
+    closing = item[-1]
+
+    sig = None
+    sigsubs = []
+    blocksubs = []
+    subs = []
+    inserts = []
+    i = 1
+    while i < len(block):
+        line = block[i]
+        s = line.strip()
+        if s.startswith("//@@ SIGSUB"):
+            parts = _ARG.findall(line)
+            sigsubs.append((parts[0], parts[1]))
+        elif s.startswith("//@@ SIG"):
+            j = i + 1
+            sig = []
+            while not block[j].strip().startswith("//@@ ENDSIG"):
+                sig.append(block[j])
+                j += 1
+            i = j
+        elif s.startswith("//@@ SUBBLOCK"):
+            cnt = int(s.split()[2])
+            j = i + 1
+            old_l, new_l = [], []
+            while not block[j].strip().startswith("//@@ WITH"):
+                old_l.append(block[j].strip())
+                j += 1
+            j += 1
+            while not block[j].strip().startswith("//@@ ENDSUB"):
+                new_l.append(block[j])
+                j += 1
+            blocksubs.append((cnt, old_l, new_l))
+            i = j
+        elif s.startswith("//@@ SUB"):
+            cnt = int(s.split()[2])
+            parts = _ARG.findall(line)
+            subs.append((cnt, parts[0], parts[1]))
+        elif s.startswith("//@@ AFTER") or s.startswith("//@@ BEFORE"):
+            kind = s.split()[1]
+            nth_i = int(s.split()[2])
+            target = _ARG.search(line).group(1).strip()
+            j = i + 1
+            text = []
+            while not block[j].strip().startswith("//@@ END" + kind):
+                text.append(block[j])
+                j += 1
+            inserts.append((kind, nth_i, target, text))
+            i = j
+        elif s.startswith("//@@ KEEPSIG"):
+            sig = "KEEP"
+        i += 1
+
+    out = []
+    if sig is None or sig == "KEEP":
+        # type definitions / plain items: copied with R1/R2 only
+        for l in item[:k + 1]:
+            out.append(l)
+    else:
+        # check the Verus head against the real signature
+        headlines = []
+        for l in sig:
+            if l.strip().split("(")[0].split(" ")[0].rstrip(",") in _SPEC_KW or l.strip().startswith(_SPEC_KW):
+                break
+            headlines.append(l)
+        vhead = " ".join(l.strip() for l in headlines)
+        vhead_n = re.sub(r"->\s*\(\s*[A-Za-z_][A-Za-z0-9_]*\s*:\s*(.*)\)\s*$", r"-> \1", vhead.strip())
+        rs = real_sig
+        rs = re.sub(r"^(pub(\([a-z]+\))?\s+)", "", rs.strip())
+        for old, new in sigsubs:
+            if old not in rs:
+                raise Undecided("lost anchor: signature rewrite %r does not apply to %r" % (old, rs))
+            rs = rs.replace(old, new)
+            rewrites.append("%s: signature: %s => %s" % (anchor[:40], old, new))
+        if _norm(vhead_n) != _norm(rs):
+            raise Undecided("lost anchor: signature of %r changed: real %r vs contract %r" % (anchor[:50], rs, vhead_n))
+        out += sig
+        out.append("{")
+    btxt = "\n".join(body)
+    for cnt, old, new in subs:
+        c = btxt.count(old)
+        if c != cnt:
+            raise Undecided("lost anchor: rewrite %r expected %d matches, found %d (in %s)" % (old, cnt, c, anchor[:50]))
+        btxt = btxt.replace(old, new)
+        rewrites.append("%s: %s => %s (x%d)" % (anchor[:40], old, new, cnt))
+    blines = btxt.split("\n")
+    for cnt, old_l, new_l in blocksubs:
+        hits = [q for q in range(len(blines) - len(old_l) + 1)
+                if [x.strip() for x in blines[q:q + len(old_l)]] == old_l]
+        if len(hits) != cnt:
+            raise Undecided("lost anchor: block rewrite starting %r expected %d matches, found %d (in %s)" % (old_l[0], cnt, len(hits), anchor[:50]))
+        for q in reversed(hits):
+            blines[q:q + len(old_l)] = new_l
+        rewrites.append("%s: block %s ... => %s (x%d)" % (anchor[:40], old_l[0], " ".join(x.strip() for x in new_l)[:80], cnt))
+    for kind, nth_i, target, text in inserts:
+        pos = [q for q, l in enumerate(blines) if l.strip() == target]
+        if len(pos) < nth_i:
+            raise Undecided("lost anchor: insertion point %r #%d not found in %s" % (target, nth_i, anchor[:50]))
+        at = pos[nth_i - 1] + (1 if kind == "AFTER" else 0)
+        blines[at:at] = text
+    # R1/R2: visibility, attributes and doc comments have no run-time meaning
+    cleaned = []
+    for l in out + blines + [closing]:
+        st = l.strip()
+        if st.startswith("///") or st.startswith("#[inline") or st.startswith("#[must_use") or st.startswith("#[allow") or st.startswith("#[cold"):
+            continue
+        l = re.sub(r"^(\s*)pub(\([a-z]+\))?\s+", r"\1", l)
+        cleaned.append(l)
+    return cleaned, relfile, anchor
+
+
+def build_unit(unit):
+    with open(os.path.join(unit["dir"], "unit.rs.tpl")) as f:
+        tpl = f.read().split("\n")
+    out = []
+    rewrites = []
+    extracted = []
+    i = 0
+    while i < len(tpl):
+        line = tpl[i]
+        if line.strip().startswith("//@@ EXTRACT"):
+            j = i
+            while not (tpl[j].strip() == "//@@ END"):
+                j += 1
+                if j >= len(tpl):
+                    raise Undecided("%s: EXTRACT without END" % unit["name"])
+            code, relfile, anchor = _extract_block(tpl[i:j], unit["name"], rewrites)
+            out.append("// ---- extracted from %s: %s" % (relfile, anchor))
+            out += code
+            out.append("// ---- end of extracted item")
+            extracted.append("%s: %s" % (relfile, anchor))
+            i = j + 1
+            continue
+        out.append(line)
+        i += 1
+    return "\n".join(out) + "\n", rewrites, extracted
+
+
+def run_unit(unit, snap=None, use_cache=True):
+    text, rewrites, extracted = build_unit(unit)
+    key = sha256_bytes((VERUS_VERSION + text).encode())
+    cpath = os.path.join(CACHE, "verus-results", key + ".json")
+    wd = os.path.join(CACHE, "verus-work")
+    os.makedirs(wd, exist_ok=True)
+    src = os.path.join(wd, unit["name"] + ".rs")
+    with open(src, "w") as f:
+        f.write(text)
+    res = read_json(cpath) if use_cache else None
+    if res is None:
+        t0 = time.time()
+        cmd = ["verus", src, "--output-json", "--time", "--multiple-errors", "20", "--rlimit", str(unit.get("rlimit", 60))]
+        log("verus:", unit["name"])
+        try:
+            p = subprocess.run(cmd, capture_output=True, text=True, timeout=unit.get("timeout", 900), cwd=wd)
+        except subprocess.TimeoutExpired:
+            raise Undecided("verus timeout on unit %s" % unit["name"])
+        wall = time.time() - t0
+        import json
+        try:
+            data = json.loads(p.stdout)
+        except Exception:
+            data = None
+        res = {"stdout_json": data, "stderr": p.stderr[-20000:], "rc": p.returncode, "wall": wall, "cmd": " ".join(cmd)}
+        if data is not None:
+            write_json(cpath, res)
+        res["cached"] = False
+    else:
+        res["cached"] = True
+    return _classify(unit, res, rewrites, extracted, text)
+
+
+def _fn_spans(text):
+    """(name, first line, last line) of every fn in the generated file."""
+    lines = text.split("\n")
+    spans = []
+    i = 0
+    rx = re.compile(r"^\s*(?:pub\s+)?(?:open\s+|closed\s+)?(?:proof\s+|spec\s+|exec\s+)?(?:const\s+)?fn\s+([A-Za-z0-9_]+)")
+    while i < len(lines):
+        m = rx.match(lines[i])
+        if m:
+            try:
+                e = _match_brace(lines, i)
+            except Undecided:
+                e = i
+            spans.append((m.group(1), i + 1, e + 1))
+        i += 1
+    return spans
+
+
+def _classify(unit, res, rewrites, extracted, text):
+    data = res["stdout_json"]
+    obs = []
+    if data is None:
+        raise Undecided("verus produced no JSON for %s: %s" % (unit["name"], res["stderr"][-400:]))
+    vr = data["verification-results"]
+    if vr.get("encountered-vir-error"):
+        raise Undecided("verus rejected unit %s (unsupported construct / syntax): %s" % (unit["name"], _first_error(res["stderr"])))
+    # collect errors: (kind text, line)
+    errs = []
+    for m in re.finditer(r"^error(?:\[[A-Z0-9]+\])?: (.*)\n\s+--> [^:]+:(\d+):\d+", res["stderr"], re.M):
+        errs.append((m.group(1).strip(), int(m.group(2))))
+    if vr.get("encountered-error") and not errs and not vr.get("errors"):
+        raise Undecided("verus failed on unit %s: %s" % (unit["name"], _first_error(res["stderr"])))
+    # rust compile errors (not verification failures) => undecided
+    for e, _ in errs:
+        if not any(e.startswith(b) for b in BOUNDARY + INTERNAL) and "rlimit" not in e.lower() and "resource limit" not in e.lower():
+            if vr.get("verified", 0) == 0 and vr.get("errors", 0) == 0:
+                raise Undecided("verus could not compile unit %s: %s" % (unit["name"], e))
+    spans = _fn_spans(text)
+    per_fn = {}
+    try:
+        for mod in data["times-ms"]["smt"]["smt-run-module-times"]:
+            for fb in mod.get("function-breakdown", []):
+                per_fn[fb["function"].split("::")[-1]] = fb
+    except Exception:
+        pass
+
+    def errs_in(fn):
+        out = []
+        for name, a, b in spans:
+            if name == fn:
+                out += [(e, l) for e, l in errs if a <= l <= b]
+        return out
+
+    for o in unit["obligations"]:
+        fn = o["function"]
+        fe = errs_in(fn)
+        fb = per_fn.get(fn)
+        rec = {"id": o["id"], "engine": "verus", "kind": o.get("kind", "unbounded"), "harness": unit["name"] + "::" + fn,
+               "clause": o.get("clause", ""), "functions": o.get("fns", []), "bound": None, "checks": 1,
+               "covers_satisfied": None, "verification_time_s": (fb or {}).get("time", 0) / 1000.0 if fb else None,
+               "solver_s": (fb or {}).get("time", 0) / 1000.0 if fb else None, "rlimit": (fb or {}).get("rlimit") if fb else None,
+               "cached": res.get("cached", False), "extracted_from": extracted, "rewrites": rewrites}
+        item = {"id": o["id"], "record": rec, "canary": o.get("kind") == "canary"}
+        if not any(name == fn for name, _, _ in spans):
+            raise Undecided("unit %s: function %s not found in generated file" % (unit["name"], fn))
+        rl = [e for e, _ in fe if "rlimit" in e.lower() or "resource limit" in e.lower()]
+        if o.get("kind") == "canary":
+            if fe and not rl:
+                rec["verdict"] = "canary-failed-as-required"
+                item["verdict"] = "pass"
+            else:
+                item["verdict"] = "undecided"
+                item["reason"] = "verus canary %s did not fail" % fn
+                rec["verdict"] = "undecided"
+            obs.append(item)
+            continue
+        if not fe:
+            if fb is not None and fb.get("success") is False:
+                item["verdict"] = "undecided"
+                item["reason"] = "verus reports %s unsuccessful without a located error" % fn
+            else:
+                item["verdict"] = "pass"
+        elif rl:
+            item["verdict"] = "undecided"
+            item["reason"] = "solver resource limit in %s" % fn
+        else:
+            boundary = [e for e, _ in fe if any(e.startswith(b) for b in BOUNDARY)]
+            item["failed_checks"] = [{"description": e, "function": fn, "file": unit["name"] + ".rs", "line": l, "category": "verus"} for e, l in fe[:8]]
+            item["output"] = _errors_for(res["stderr"], [l for _, l in fe])
+            if boundary:
+                item["verdict"] = "fail"
+            else:
+                # proof-internal obligation: a failed proof is not a refutation (DESIGN 2.2)
+                item["verdict"] = "internal"
+                item["reason"] = "proof-internal obligation failed in %s: %s" % (fn, fe[0][0])
+        rec["verdict"] = item["verdict"]
+        obs.append(item)
+    return {"obligations": obs, "wall": res.get("wall"), "rewrites": rewrites, "extracted": extracted,
+            "verified": vr.get("verified"), "errors": vr.get("errors")}
+
+
+def _first_error(stderr):
+    m = re.search(r"^error.*$", stderr, re.M)
+    return (m.group(0) if m else stderr[-300:])[:400]
+
+
+def _errors_for(stderr, lines):
+    chunks = re.split(r"\n(?=error)", stderr)
+    keep = [c for c in chunks if c.startswith("error") and "aborting due to" not in c]
+    return "\n".join(keep)[:6000]
